@@ -24,6 +24,7 @@
 #include <soundswallower/ckd_alloc.h>
 #include <soundswallower/hmm.h>
 #include <soundswallower/cmn.h>
+#include <soundswallower/ssverif.h>
 
 static long ncases(int tier, long req) { if (req >= 0) return req; return tier ? 6000 : 400; }
 static void setup(void) { err_set_loglevel(ERR_FATAL); vd_init(); }
@@ -92,6 +93,21 @@ static void run_fe(long i, vh_rng *r)
 }
 
 /* ---------- B: decoder ---------- */
+static int g_tap_bad; static long g_tap_frames; static const char *g_tap_sig;
+static void score_tap(void *user, int fr, const short *sc, int n)
+{
+    acmod_t *am = (acmod_t *)user; int i, id = 0, mn = 1 << 30;
+    ++g_tap_frames;
+    if (g_tap_bad) return;
+    if (am->compallsen) { for (i = 0; i < n; ++i) { if (sc[i] < 0) { g_tap_bad = 1; vh_viol(vh_path("senone_score_negative|%s", g_tap_sig), "frame %d senone %d score %d < 0 as used by the search (all senones computed)", fr, i, sc[i]); return; } if (sc[i] < mn) mn = sc[i]; } }
+    else {
+        /* the list of senones to compute is delta-coded; every entry is computed */
+        if (am->n_senone_active <= 0) return;
+        for (i = 0; i < am->n_senone_active; ++i) { id += am->senone_active[i]; if (id >= n) break; if (sc[id] < 0) { g_tap_bad = 1; vh_viol(vh_path("senone_score_negative|%s", g_tap_sig), "frame %d: computed senone %d (entry %d of %d in the active list) scores %d < 0 as used by the search", fr, id, i, am->n_senone_active, sc[id]); return; } if (sc[id] < mn) mn = sc[id]; }
+    }
+    if (mn != 0 && mn != (1 << 30)) { g_tap_bad = 1; vh_viol(vh_path("best_senone_not_zero|%s", g_tap_sig), "frame %d: the best computed senone score is %d, not 0 (%s)", fr, mn, am->compallsen ? "all senones" : "active senones only"); }
+}
+
 static int text_finite(const char *t)
 {
     const char *p;
@@ -137,7 +153,14 @@ static void run_dec(long i, vh_rng *r)
     if (decoder_set_jsgf_string(d, gram) != 0) { vh_inconc("grammar refused"); goto out; }
     decoder_set_cmn(d, "40,3,-1");
     p.partial_prob = (!p.full_utt && !strcmp(cfg.cmn, "live")) ? 0.3 : 0.0;
-    if (vd_run(d, &a, r, &p, cmn_text_cb, NULL, &info) != 0) { vh_viol("utterance_call_failed", "start %d end %d on adversarial audio (%s)", info.start_ret, info.end_ret, sig_name[kind]); goto out; }
+    /* the scores the search actually uses (hook H1), also when only the active senones are computed: every computed score is a cost >= 0
+     * and the best of them is exactly 0 */
+    g_tap_bad = 0; g_tap_frames = 0; g_tap_sig = sig_name[kind]; ssv_senscr_tap_user = d->acmod; ssv_senscr_tap = score_tap;
+    if (vd_run(d, &a, r, &p, cmn_text_cb, NULL, &info) != 0) { ssv_senscr_tap = NULL; vh_viol("utterance_call_failed", "start %d end %d on adversarial audio (%s)", info.start_ret, info.end_ret, sig_name[kind]); goto out; }
+    /* a second pass with few senones active (forced alignment) goes through the same scorer */
+    if (vh_chance(r, 0.5)) { vh_ctx("decoder_alignment"); (void)decoder_alignment(d); }
+    ssv_senscr_tap = NULL;
+    vh_count("frames_checked_as_scored_by_the_search", g_tap_frames);
     /* result scores */
     vd_result_get(d, &res);
     if (res.nseg > 0) {
